@@ -206,14 +206,14 @@ factory_getSegments = FunctionSpec(
 
 
 def _fi_ensures(C, res):
-    return []
+    return [('thresholds_are_stored_as_given', z3.And(C.self.minScore == C.minScore, C.self.breakSegmentThreshold == C.breakSegmentThreshold))]
 
 
 factory_init = FunctionSpec(
     file='src/alignment/segments_factory.py', qualname='AlignmentSegmentsFactory.__init__',
     params=dict(self=FACTORY, minScore=REAL, breakSegmentThreshold=REAL), returns=NONE,
-    raises={'ValueError': lambda C: C.minScore <= 0}, serves=('C13',),
-    note="ValueError exactly when minScore <= 0")
+    raises={'ValueError': lambda C: C.minScore <= 0}, ensures=_fi_ensures, serves=('C13',),
+    note="ValueError exactly when minScore <= 0; both thresholds stored unchanged (0 included)")
 
 
 def _brk_append(L):
